@@ -30,27 +30,38 @@ _THM = ["tree_jac_is_fderiv", "tree_jac_directional", "assemble_jac_is_fderiv", 
         "var_leaf_sound", "const_leaf_sound", "add_sound", "sub_sound", "mul_sound", "div_sound", "pow_const_sound",
         "pow_int_sound", "matmul_sound", "maximum_sound", "exp_sound", "log_sound", "sin_sound", "cos_sound", "tan_sound",
         "sinh_sound", "cosh_sound", "tanh_sound", "arctan_sound", "abs_sound", "l2_norm_sound", "characteristic_sound",
-        "heaviside_sound"]
+        "heaviside_sound", "pow_sound", "l2_norm_rows_sound", "l2_norm_dim_one_is_abs", "arcsin_sound", "arccos_sound", "arcsinh_sound",
+        "arccosh_sound", "arctanh_sound", "safe_power_sound", "heaviside_smooth_sound"]
 THEOREMS = ["PorepyVerif.C03." + t for t in _THM]
 LEAN_MODULES = ["PorepyVerif.C03.Props"]
 AUDIT = "PorepyVerif/C03/Audit.lean"
 DRIVER = "PorepyVerif/C03/Driver.lean"
-N = {"quick": 18, "thorough": 175}
+N = {"quick": 18, "thorough": 180}
 
 # ------------------------------------------------------------------------------------------------ configurations
 FAMILIES = ["spf", "meb", "mom", "poro", "thm"]
-# quick tier: six configurations, every family, 0/1/2 fractures, both grid types, one 3d model (only there is the
-# tangential fracture displacement a vector, i.e. l2_norm is not abs)
-QUICK_CONFIGS = [
-    ("spf", 2, "cartesian", 2),
-    ("meb", 1, "simplex", 2),
-    ("mom", 1, "cartesian", 3),
-    ("poro", 1, "cartesian", 2),
-    ("thm", 2, "cartesian", 2),
-    ("thm", 0, "simplex", 2),
+# two more families: "cm" = pp.ContactMechanics (only the normal / tangential fracture deformation equations, the interface
+# displacement is a parameter), "lib" = a SYNTHETIC single-phase flow model with one extra equation that applies every
+# function of porepy.numerics.ad.functions to the pressure (exercises the vocabulary beyond what the shipped models use)
+MECHANICS = ("mom", "poro", "thm", "cm")
+STRATA = ["closed_stick", "open", "closed_slip", "mixed", "random"]
+# quick tier plan: (family, fractures, grid, dim, contact stratum).  Every shipped family, 0/1/2 fractures, both grid
+# types, one 3d model (only there is the tangential jump a vector, i.e. l2_norm is not abs); every fractured mechanics
+# model is visited with closed (negative normal jump) and open fracture states.
+QUICK_PLAN = [
+    ("spf", 2, "cartesian", 2, "random"), ("spf", 2, "cartesian", 2, "random"),
+    ("meb", 1, "simplex", 2, "random"), ("meb", 1, "simplex", 2, "random"),
+    ("mom", 1, "cartesian", 3, "closed_stick"), ("mom", 1, "cartesian", 3, "open"), ("mom", 1, "cartesian", 3, "closed_slip"),
+    ("poro", 1, "cartesian", 2, "closed_stick"), ("poro", 1, "cartesian", 2, "open"), ("poro", 1, "cartesian", 2, "mixed"),
+    ("thm", 2, "cartesian", 2, "closed_slip"), ("thm", 2, "cartesian", 2, "open"), ("thm", 2, "cartesian", 2, "closed_stick"),
+    ("thm", 0, "simplex", 2, "random"),
+    ("cm", 2, "cartesian", 2, "closed_stick"), ("cm", 2, "cartesian", 2, "closed_slip"),
+    ("lib", 0, "cartesian", 2, "random"), ("lib", 0, "cartesian", 2, "random"),
 ]
+QUICK_CONFIGS = sorted({c[:4] for c in QUICK_PLAN})
 ALL_CONFIGS = [(f, k, g, 2) for f in FAMILIES for k in (0, 1, 2) for g in ("cartesian", "simplex")] + [
-    ("mom", 1, "cartesian", 3), ("mom", 2, "cartesian", 3), ("thm", 1, "cartesian", 3), ("spf", 2, "cartesian", 3), ("poro", 1, "simplex", 3)]
+    ("mom", 1, "cartesian", 3), ("mom", 2, "cartesian", 3), ("thm", 1, "cartesian", 3), ("spf", 2, "cartesian", 3), ("poro", 1, "simplex", 3),
+    ("cm", 1, "cartesian", 2), ("cm", 2, "simplex", 2), ("cm", 1, "cartesian", 3), ("lib", 0, "cartesian", 2), ("lib", 0, "simplex", 2)]
 
 FLUID = dict(compressibility=0.3, thermal_expansion=0.2, density=1.3, viscosity=0.7, specific_heat_capacity=1.1,
              thermal_conductivity=0.9, normal_thermal_conductivity=0.8)
@@ -64,8 +75,66 @@ REFERENCE = dict(pressure=0.1, temperature=0.2)
 _MODELS: dict = {}
 
 
+def _library_model():
+    """SYNTHETIC: single-phase flow plus one extra equation per function on the matrix cells, sending the pressure through every function of
+    porepy.numerics.ad.functions (inner maps keep each argument inside the function's smooth domain, except abs / heaviside /
+    maximum / characteristic_function whose kinks are handled by the margin rule like in the shipped models)."""
+    import porepy as pp
+    from functools import partial
+    F = pp.ad.functions
+
+    class LibraryFunctions(pp.SinglePhaseFlow):
+        def set_equations(self):
+            super().set_equations()
+            sds = self.mdg.subdomains(dim=self.nd)
+            p = self.pressure(sds)
+            fn = lambda f, name: pp.ad.Function(f, name)
+            S = pp.ad.Scalar
+            small = S(0.5) * fn(F.tanh, "tanh")(p)                      # in (-0.5, 0.5)
+            terms = {
+                "arcsin": fn(F.arcsin, "arcsin")(small),
+                "arccos": fn(F.arccos, "arccos")(S(0.6) * fn(F.cos, "cos")(p)),
+                "arctanh": fn(F.arctanh, "arctanh")(S(0.7) * fn(F.sin, "sin")(p)),
+                "arcsinh": fn(F.arcsinh, "arcsinh")(p),
+                "arccosh": fn(F.arccosh, "arccosh")(S(2.0) + p ** 2.0),
+                "arctan": fn(F.arctan, "arctan")(p),
+                "log_exp": fn(F.log, "log")(S(1.0) + fn(F.exp, "exp")(p)),
+                "sinh_cosh": fn(F.sinh, "sinh")(p) * fn(F.cosh, "cosh")(small),
+                "tan": fn(F.tan, "tan")(small),
+                "abs_heaviside": fn(F.abs, "abs")(p) * fn(partial(F.heaviside, 0.5), "heaviside")(p - S(0.05)) + fn(F.abs, "abs")(p),
+                "heaviside_smooth": fn(partial(F.heaviside_smooth, eps=0.25), "heaviside_smooth_kw")(p) + fn(F.heaviside_smooth, "heaviside_smooth")(S(0.01) * p),
+                "safe_power": fn(partial(F.safe_power, -1.5, 0.0, 1e-3), "safe_power")(S(0.3) + fn(F.exp, "exp")(small)),
+                "characteristic": fn(partial(F.characteristic_function, 0.2), "characteristic")(p) * p + p,
+                "maximum": fn(F.maximum, "maximum")(p, small),
+                "pow": (S(1.5) + small) ** 2.5 + (S(2.0) + small) ** p + S(1.7) ** p,
+                "norm1": fn(partial(F.l2_norm, 1), "norm1")(p - S(0.01)),
+            }
+            for name, eq in terms.items():
+                eq.set_name("library_" + name)
+                self.equation_system.set_equation(eq, sds, {"cells": 1})
+
+    return LibraryFunctions
+
+
+def _contact_model():
+    import porepy as pp
+
+    class ContactMechanics(pp.ContactMechanics):
+        def interface_displacement_parameter_values(self, interface):
+            # deterministic, non-trivial interface displacement (the pure contact model has no displacement unknown)
+            c = interface.cell_centers
+            k = np.arange(self.nd)[:, None]
+            return 0.3 * np.sin(7.0 * c[0] + 3.0 * c[1] + 5.0 * c[2] + 1.3 * k + 0.7 * np.arange(interface.num_cells)[None, :])
+
+    return ContactMechanics
+
+
 def _family_class(name):
     import porepy as pp
+    if name == "lib":
+        return _library_model()
+    if name == "cm":
+        return _contact_model()
     return {"spf": pp.SinglePhaseFlow, "meb": pp.MassAndEnergyBalance, "mom": pp.MomentumBalance,
             "poro": pp.Poromechanics, "thm": pp.Thermoporomechanics}[name]
 
@@ -238,6 +307,7 @@ def _draw(model, case, attempt):
     base = _base_state(model)
     x = base + case["amp"] * np.array([r.uniform(-1, 1) for _ in range(n)])
     xprev = case["prev_amp"] * np.array([r.uniform(-1, 1) for _ in range(n)])
+    x = _apply_stratum(model, x, case.get("contact", "random"), r)
     rd = random.Random(f"C03-dir-{case['dir_seed']}")
     kind = case["dir_kind"]
     if kind == "dense" or n == 0:
@@ -252,6 +322,46 @@ def _draw(model, case, attempt):
         d = np.zeros(n)
         d[rd.randrange(n)] = rd.choice([1.0, -1.0])
     return x, xprev, d
+
+
+def _contact_ops(model):
+    """(normal displacement jump, normal contact traction) operators on all fractures of a mechanics model, or None."""
+    if not hasattr(model, "_c03_contact"):
+        fracs = model.mdg.subdomains(dim=model.nd - 1)
+        ops = None
+        if fracs and sum(sd.num_cells for sd in fracs) > 0 and hasattr(model, "contact_traction") and hasattr(model, "displacement_jump"):
+            nc = model.normal_component(fracs)
+            ops = (nc @ model.displacement_jump(fracs), nc @ model.contact_traction(fracs))
+        model._c03_contact = ops
+    return model._c03_contact
+
+
+def _steer(model, x, op, target):
+    """Minimum-norm change of the state that gives the (linear) operator `op` the values `target`."""
+    es = model.equation_system
+    ad = es.evaluate(op, True, state=x)
+    L = np.asarray(ad.jac.todense())
+    if L.size == 0 or not np.any(L):
+        return x  # not a function of the unknowns (pure contact mechanics: the jump is a parameter)
+    w = np.linalg.lstsq(L, target - ad.val, rcond=None)[0]
+    return x + w
+
+
+def _apply_stratum(model, x, stratum, r):
+    """Put the fracture cells of a mechanics model into a prescribed contact state, away from the kinks:
+    closed = negative normal jump (aperture max picks the residual aperture), open = positive normal jump;
+    stick = strongly compressive normal traction (large friction bound), slip = weakly compressive; `mixed` draws
+    one of the three per cell.  Everything else of the random state is left as drawn."""
+    ops = _contact_ops(model)
+    if ops is None or stratum == "random":
+        return x
+    jump_n, t_n = ops
+    ncell = sum(sd.num_cells for sd in model.mdg.subdomains(dim=model.nd - 1))
+    kinds = [stratum if stratum != "mixed" else ("closed_stick", "open", "closed_slip")[(c + r.randrange(3)) % 3] for c in range(ncell)]
+    jt = np.array([r.uniform(0.1, 0.5) * (1.0 if k == "open" else -1.0) for k in kinds])
+    tt = np.array([r.uniform(-0.3, 0.3) if k == "open" else (-r.uniform(2.0, 4.0) if k == "closed_stick" else -r.uniform(0.03, 0.15)) for k in kinds])
+    x = _steer(model, x, jump_n, jt)
+    return _steer(model, x, t_n, tt)
 
 
 def _base_state(model):
@@ -306,6 +416,20 @@ def _kink_nodes(rec, nodes):
     return ids
 
 
+def _branches(model, ids, x):
+    """{node name: [rows with g > 0, rows with g < 0]} for the kink nodes at x (max: first / second argument larger;
+    abs, heaviside: sign; characteristic_function, safe_power: outside / inside the tolerance)."""
+    out = {}
+    if not ids:
+        return out
+    for i, (fn, g) in _kink_functions(model, ids, x).items():
+        name = fn + ":" + str(getattr(ids[i][0], "name", "?"))[:60]
+        c = out.setdefault(name, [0, 0])
+        c[0] += int(np.sum(g > 0))
+        c[1] += int(np.sum(g < 0))
+    return out
+
+
 def _smooth_enough(model, ids, x, d):
     """True iff no kink condition changes sign on the segment x +- 2H d and every margin dominates its variation."""
     if not ids:
@@ -318,7 +442,10 @@ def _smooth_enough(model, ids, x, d):
         if a.size == 0:
             continue
         var = np.maximum(np.abs(p - a), np.abs(m - a))
-        if np.any(np.sign(p) != np.sign(a)) or np.any(np.sign(m) != np.sign(a)) or np.any(np.abs(a) <= 4 * var + 1e-7):
+        # a kink argument that does not move at all over the stencil (e.g. characteristic_function of max(b, 0) = 0 on an open
+        # fracture: g = -tol exactly) is on one side of its kink throughout, however small the margin
+        if (np.any(np.sign(p) != np.sign(a)) or np.any(np.sign(m) != np.sign(a)) or np.any(np.abs(a) <= 4 * var)
+                or np.any((var > 0) & (np.abs(a) <= 1e-7))):
             return False
         if fn == "l2_norm" and np.any(np.abs(a) < 1e-2):
             return False
@@ -357,6 +484,7 @@ def _prepare_uncached(case):
         census, rec, nodes = audit_trees(model, x)
         ids = _kink_nodes(rec, nodes)
         last = (model, x, d, census, rec, nodes, attempt)
+        model._c03_branches = _branches(model, ids, x)
         if _smooth_enough(model, ids, x, d):
             return last + (True,)
         _STATS["kink_redraws"] += 1
@@ -477,10 +605,14 @@ _COUNTER = {"quick": 0, "thorough": 0}
 def gen_case(rng, tier):
     k = _COUNTER[tier]
     _COUNTER[tier] += 1
-    pool = QUICK_CONFIGS if tier == "quick" else ALL_CONFIGS
-    fam, nf, grid, dim = pool[k % len(pool)]
+    if tier == "quick":
+        fam, nf, grid, dim, stratum = QUICK_PLAN[k % len(QUICK_PLAN)]
+    else:
+        fam, nf, grid, dim = ALL_CONFIGS[k % len(ALL_CONFIGS)]
+        stratum = STRATA[(k // len(ALL_CONFIGS)) % len(STRATA)] if fam in MECHANICS and nf > 0 else "random"
     return {
         "config": {"family": fam, "fractures": nf, "grid": grid, "dim": dim},
+        "contact": stratum,
         "state_seed": rng.randrange(10**9),
         "amp": rng.choice([0.5, 0.5, 0.2, 1.0]),
         "prev_amp": rng.choice([0.0, 0.3, 0.3]),
@@ -492,7 +624,9 @@ def gen_case(rng, tier):
 
 
 # ------------------------------------------------------------------------------------------------ correspondence
-N_NODES = 10  # sampled nodes per case that the driver recomputes
+N_NODES = 14  # sampled nodes per case that the driver recomputes (spread over the kinds present)
+_UNARY_FN = ("exp", "log", "sin", "cos", "tan", "sinh", "cosh", "tanh", "arctan", "arcsin", "arccos", "arcsinh", "arccosh",
+             "arctanh", "abs", "characteristic_function", "heaviside", "heaviside_smooth", "safe_power")
 _ARITH = {"add": "add", "sub": "sub", "mul": "mul", "div": "div", "fn:maximum": "maximum"}
 
 
@@ -526,16 +660,38 @@ def _operand_row(v, i, width):
     raise ValueError(t)
 
 
-def _sample_nodes(case, rec, nodes, width):
+def _partial_args(op):
+    """positional and keyword arguments bound by functools.partial around the library function of an evaluate node,
+    in the order of the function's signature (`heaviside_smooth(var, eps=...)` -> [eps])"""
+    inner = op.func.__self__._func
+    args, kw = [], {}
+    while isinstance(inner, functools.partial):
+        args = list(inner.args) + args
+        kw = {**inner.keywords, **kw}
+        inner = inner.func
+    if getattr(inner, "__name__", "") == "heaviside_smooth":
+        return [kw.get("eps", 1e-3)] if not args else args
+    return args + list(kw.values())
+
+
+def _sample_nodes(case, rec, nodes, width, model, x_state):
+    def model_dofs(op):
+        return model.equation_system.dofs_of([op])
+
     """Pick nodes of arithmetic kinds and one row each; return (driver ops, what the real forward mode produced)."""
     r = random.Random(f"C03-nodes-{case['node_seed']}")
     cand = []
     for op in nodes:
-        if id(op) not in rec.results or op.is_leaf() or _tag(rec.results[id(op)]) != "A" or rec.results[id(op)].val.size == 0:
+        if id(op) not in rec.results or _tag(rec.results[id(op)]) != "A" or rec.results[id(op)].val.size == 0:
             continue
         k = _kind(op, rec)
+        if k == "leaf:var":
+            cand.append((op, k, k))
+            continue
+        if op.is_leaf():
+            continue
         head = k.split("(")[0]
-        if head in _ARITH or head in ("matmul", "pow"):
+        if head in _ARITH or head in ("matmul", "pow", "fn:l2_norm") or (head.startswith("fn:") and head[3:] in _UNARY_FN):
             cand.append((op, k, head))
     r.shuffle(cand)
     by_kind = {}
@@ -560,12 +716,33 @@ def _sample_nodes(case, rec, nodes, width):
                 a, ja = _operand_row(cv[0], i, width)
                 b, jb = _operand_row(cv[1], i, width)
                 o = {"op": "node", "kind": _ARITH[head], "a": frac(a), "ja": [frac(t) for t in ja], "b": frac(b), "jb": [frac(t) for t in jb]}
+            elif head == "leaf:var":
+                dofs = model_dofs(op)
+                o = {"op": "var", "width": width, "dof": int(dofs[i]), "x": frac(float(x_state[dofs[i]]))}
             elif head == "pow":
                 c = cv[1]
-                if _tag(c) != "S" or not float(c).is_integer() or abs(float(c)) > 8:
+                a, ja = _operand_row(cv[0], i, width)
+                if _tag(c) == "S" and float(c).is_integer() and abs(float(c)) <= 8:
+                    o = {"op": "pow", "c": int(float(c)), "a": frac(a), "ja": [frac(t) for t in ja]}
+                else:  # real exponents, AdArray / ndarray exponents, constant bases: a ** b in binary64
+                    b, jb = _operand_row(c, i, width)
+                    o = {"op": "pow2", "a": frac(a), "ja": [frac(t) for t in ja], "b": frac(b), "jb": [frac(t) for t in jb]}
+            elif head == "fn:l2_norm":
+                dim = int(_partial_args(op)[0])
+                if dim == 1:
+                    a, ja = _operand_row(cv[0], i, width)
+                    o = {"op": "fn", "name": "abs", "params": [], "a": frac(a), "ja": [frac(t) for t in ja]}
+                else:
+                    rows = [i * dim + q for q in range(dim)]
+                    jr = np.asarray(cv[0].jac[rows, :].todense())
+                    o = {"op": "norm", "width": width, "vals": [frac(float(cv[0].val[q])) for q in rows],
+                         "jacs": [[frac(t) for t in jr[q]] for q in range(dim)]}
+            elif head.startswith("fn:"):
+                pa = _partial_args(op)
+                if not all(isinstance(t, (int, float, np.floating, np.integer)) for t in pa):
                     continue
                 a, ja = _operand_row(cv[0], i, width)
-                o = {"op": "pow", "c": int(float(c)), "a": frac(a), "ja": [frac(t) for t in ja]}
+                o = {"op": "fn", "name": head[3:], "params": [frac(float(t)) for t in pa], "a": frac(a), "ja": [frac(t) for t in ja]}
             else:  # matmul
                 M = _as_matrix(cv[0])
                 row = M.getrow(i)
@@ -589,19 +766,19 @@ def _impl(case):
     key = _case_key(case)
     if key not in _IMPL_CACHE:
         model, x, d, census, rec, nodes, attempt, smooth = _prepare(case)
-        ops, real = _sample_nodes(case, rec, nodes, model.equation_system.num_dofs())
+        ops, real = _sample_nodes(case, rec, nodes, model.equation_system.num_dofs(), model, x)
         _IMPL_CACHE.clear()
-        _IMPL_CACHE[key] = (census, ops, real, model.equation_system.num_dofs(), attempt, smooth)
+        _IMPL_CACHE[key] = (census, ops, real, model.equation_system.num_dofs(), attempt, smooth, dict(getattr(model, "_c03_branches", {})))
     return _IMPL_CACHE[key]
 
 
 def impl_run(case):
-    census, ops, real, ndof, attempt, smooth = _impl(case)
-    return {"census": dict(sorted(census.items())), "nodes": real, "dofs": ndof, "attempt": attempt, "smooth": smooth}
+    census, ops, real, ndof, attempt, smooth, branches = _impl(case)
+    return {"census": dict(sorted(census.items())), "nodes": real, "dofs": ndof, "attempt": attempt, "smooth": smooth, "kink_branches": branches}
 
 
 def model_ops(case):
-    census, ops, real, ndof, attempt, smooth = _impl(case)
+    census, ops, real, ndof, attempt, smooth, branches = _impl(case)
     return [{"op": "census", "kinds": sorted(census)}] + [{k: v for k, v in o.items() if k != "_kind"} for o in ops]
 
 
@@ -634,7 +811,7 @@ def nontrivial(case):
 
 def signature(case):
     c = case["config"]
-    return (c["family"], c["fractures"], c["grid"], c.get("dim", 2), case["state_seed"], case["dir_seed"], case["dir_kind"])
+    return (c["family"], c["fractures"], c["grid"], c.get("dim", 2), case.get("contact", "random"), case["state_seed"], case["dir_seed"], case["dir_kind"])
 
 
 def shrink_candidates(case):
@@ -661,36 +838,60 @@ def stats(cases, impl_outs):
                                       "opaque_or_anomalous": sorted(k for k in o["census"] if "opaque" in k or "anomalous" in k),
                                       "function_nodes": {k: v for k, v in o["census"].items() if k.startswith("fn:")}})
         pm["cases"] += 1
+        pm["contact_strata"] = sorted(set(pm.get("contact_strata", [])) | {c.get("contact", "random")})
+        kb = pm.setdefault("kink_branch_rows[g>0,g<0]", {})
+        for name, (pos, neg) in o.get("kink_branches", {}).items():
+            t2 = kb.setdefault(name, [0, 0])
+            t2[0] += pos
+            t2[1] += neg
         for k, v in o["census"].items():
             kinds_total[k] = max(kinds_total.get(k, 0), v)
     dk = {}
     for c in cases:
         dk[c["dir_kind"]] = dk.get(c["dir_kind"], 0) + 1
-    return {"per_model": per_model, "node_kinds_max_count_per_model": dict(sorted(kinds_total.items())),
+    strata = {}
+    for c in cases:
+        strata[c.get("contact", "random")] = strata.get(c.get("contact", "random"), 0) + 1
+    rk = {}
+    for o in impl_outs:
+        for nd in (o.get("nodes", []) if isinstance(o, dict) else []):
+            h = nd["kind"].split("(")[0]
+            rk[h] = rk.get(h, 0) + 1
+    return {"per_model": per_model, "contact_strata": strata, "recomputed_nodes_by_kind": dict(sorted(rk.items())), "node_kinds_max_count_per_model": dict(sorted(kinds_total.items())),
             "directions": dk, "recomputed_nodes": sum(len(o.get("nodes", [])) for o in impl_outs if isinstance(o, dict)),
             "oracle": dict(_STATS, fd_step=H, rtol=RTOL)}
 
 
-RULE = ("case = (model family x number of fractures x grid type, state seed, direction); the model is built on a 2x2 (or gmsh simplex, "
-        "cell size 0.5) grid with non-trivial O(1) material constants (compressibility, thermal expansion, Biot, dilation, friction ...); "
-        "state = initial state + U(-amp,amp) on every dof, previous time step = U(-0.3,0.3) or 0; states closer to a kink of "
-        "maximum/abs/l2_norm/characteristic_function than 4x the variation over the stencil are re-drawn; direction dense / one variable "
-        "block / one dof; quick: 6 configurations (all five families, 0/1/2 fractures, Cartesian and simplex, one 3d), thorough: all 30 "
-        "family x fractures x grid combinations in 2d + five 3d models; distinct = distinct (configuration, state, direction)")
+RULE = ("case = (model family x number of fractures x grid type x dimension, contact stratum, state seed, direction); the model is built on a "
+        "2x2(x2) Cartesian or gmsh simplex grid (cell size 0.5) with non-trivial O(1) material constants (compressibility, thermal expansion, "
+        "Biot, dilation, friction ...); state = initial state + U(-amp,amp) on every dof, previous time step = U(-0.3,0.3) or 0; for fractured "
+        "mechanics models the fracture cells are then steered (minimum-norm change of the interface displacement / contact traction) into a "
+        "stratum: closed = NEGATIVE normal jump (-0.1..-0.5) with sticking (t_n -2..-4) or sliding (t_n -0.03..-0.15) traction, open = positive "
+        "normal jump, mixed = per cell; states closer to a kink of maximum/abs/l2_norm/characteristic_function/heaviside/safe_power than 4x the "
+        "variation over the stencil are re-drawn; direction dense / one variable block / one dof; quick: fixed plan of 18 cases over 8 models "
+        "(five shipped families, 0/1/2 fractures, Cartesian and simplex, one 3d momentum balance, pp.ContactMechanics, every fractured "
+        "mechanics model in closed and open states, and a synthetic model applying every pp.ad.functions function); thorough: 30 family x "
+        "fractures x grid combinations in 2d + five 3d models + three contact-mechanics models + two synthetic ones, strata cycled; "
+        "distinct = distinct (configuration, stratum, state, direction)")
 TRUSTED = [
     "CORE: the theorems are about abstract expression trees whose node rules are the formulas of Model.lean/Lemmas.lean; that the real "
     "operator trees consist of such nodes is checked per run by the tree auditor (census of every node of every equation against the "
-    "Lean vocabulary, plus re-computation over exact rationals of sampled arithmetic / matmul / maximum / integer-power nodes), not proved",
+    "Lean vocabulary, plus re-computation by the Lean driver of sampled nodes of EVERY kind that occurs: variable leaves, + - * / @, "
+    "maximum and integer powers over exact rationals; exp/log/tan/..., real powers, l2_norm, characteristic_function in binary64 to 1e-9), not proved",
+    "the binary64 function rules of the driver (fnRuleF, powRuleF, normRowF) are transcriptions of the real-number rules the theorems are about "
+    "(expRule, powRule, normRule ...), not the same terms; Lean's Float functions are libm",
     "modelled, not verified: the 4800 lines of constitutive-law Python that build the trees; scipy sparse algebra; ArraySlicer (its action "
-    "is taken as that of its projection matrix); transcendental function nodes (exp, log, tan, l2_norm) are covered by theorems over the "
-    "reals but not recomputed by the driver; opaque function nodes (none in the shipped models) are only covered by the oracle",
+    "is taken as that of its projection matrix); opaque function nodes (none in the shipped models) are only covered by the oracle",
+    "the `lib` model is synthetic (not shipped): it exists to run every function of porepy.numerics.ad.functions through census, driver and oracle",
     "oracle: central differences with Richardson extrapolation (h=1e-3 and h/2, cross-checked against h/2 and h/4), per-row tolerance "
     "1e-6*(|J||delta| + |fd|) + 1e-9; discretisation matrices (incl. upwind directions) are held fixed as the property says",
 ]
 EXPLANATION = ("CORE/partial: assemble_jac_is_derivative is proved for every expression tree whose node rules are sound at the state "
                "(chain-rule induction, Frechet and directional form, stacked system with b = -residual); soundness is proved for every node kind "
-               "that occurs in the five shipped model families (tree auditor census is empty outside the vocabulary); the identification of "
-               "the Python trees with the abstract trees is by census + sampled exact re-evaluation, and the property itself is checked on "
-               "the real models by the directional-derivative oracle (relative error observed ~1e-10).")
+               "that occurs in the five shipped model families and pp.ContactMechanics and for every function of porepy.numerics.ad.functions "
+               "(incl. arcsin/arccos/arcsinh/arccosh/arctanh, safe_power, heaviside_smooth, AdArray**AdArray, l2_norm in the code's row layout); the "
+               "tree auditor finds no node outside that vocabulary; the identification of the Python trees with the abstract trees is by census + "
+               "sampled re-evaluation of every occurring node kind by the Lean driver, and the property itself is checked on the real models by the "
+               "directional-derivative oracle at stratified contact states (closed/open, stick/slip), relative error observed ~1e-9.")
 ASSUMPTIONS = ["states are sampled in the smooth region (no max/abs/norm/characteristic kink within the finite-difference stencil)",
                "discretisation matrices are constants of the residual map (no rediscretisation between evaluations)"]
